@@ -482,6 +482,9 @@ func lexQString(l *lexer) stateFn {
 			over = true
 			text = append(text, []byte(string(c))...)
 		case '\\':
+			// Remember where the \ is: the escaped character may be a
+			// line break, after which col no longer tells.
+			bline, bcol := l.line, l.col-1
 			switch c = l.next(); c {
 			case 'n':
 				c = '\n'
@@ -497,7 +500,7 @@ func lexQString(l *lexer) stateFn {
 				// (e..g., \{) or to be part of of a special
 				// sequence such as \S.
 				if !l.inPattern {
-					l.ErrorfAt(l.line, l.col-2, `invalid escape sequence: \`+string(c))
+					l.ErrorfAt(bline, bcol, `invalid escape sequence: \`+string(c))
 				}
 				text = append(text, '\\')
 			}
